@@ -11,7 +11,7 @@ import (
 // Oracle: versioned ordered-map reference model (hModel) run next to the tree.
 
 func c23Opts(thorough bool) hGenOpts {
-	o := hGenOpts{Span: 1600, MaxOps: 45, MaxRun: 420, FastBias: 3, Readers: false, Detached: true, InitVer: true, Checks: true}
+	o := hGenOpts{Span: 1600, MaxOps: 45, MaxRun: 420, FastBias: 3, Readers: false, Detached: true, InitVer: true, Checks: true, Deep: 3}
 	if thorough {
 		o.MaxOps = 90
 		o.MaxRun = 900
